@@ -297,6 +297,7 @@ def run(ctx):
     ctx.rule("C17.trust", "trusted iff unknown or equal to the stored key of that recipient", floor=4)
     ctx.rule("C17.guard", "pin overwrites are control-dependent on the auto-trust switch (default off)", floor=4)
     ctx.rule("C17.refuse", "refuse paths without auto-trust", floor=8)
+    ctx.rule("C17.author", "decryption (and with it the identity check) uses the author's session: participant when present (C03.once adopted)", floor=4)
     ctx.rule("C17.persist", "pin committed and read back by the same key", floor=3)
     ctx.rule("C17.auto", "auto-trust stores the presented key and resumes", floor=4)
     ctx.assume("python-axolotl raises UntrustedIdentityException from its own call of isTrustedIdentity and stores first-seen identities itself")
@@ -306,6 +307,9 @@ def run(ctx):
     ctx.guarded("C17.persist", rule_persist, ctx)
     ctx.guarded("C17.auto", rule_auto, ctx)
     # 'the remembered key stays in place / survives restarts' needs the store's transactions (C13.commit / replace / blob), adopted
+    # the identity that is checked is the author's: the decrypt handlers pass the participant whenever the stanza has one (C03.once), adopted
+    from . import c03
+    ctx.adopt_from("C03", [(c03.rule_once, ())], {"C03.once": "C17.author"})
     from . import c13
 
     def store_rules(scratch):
